@@ -7,11 +7,18 @@
    (b) stabilisation of interval widening chains against ARBITRARY arguments, in the
    constructive form "at most 3 steps of any chain are non-stationary w.r.t. the inclusion
    test"; (c) thresholds: get_prev(v) <= v <= get_next(v) for every threshold set built by
-   add().  Termination of the fixpoint engine itself is stated with the engine model in
-   Properties_C01/C06 (fuel); termination of the C++ run is observed, not proved. *)
+   add(); (d) environments: a well-founded order that every needed widening step (with or
+   without thresholds) strictly descends, hence stabilisation of every environment chain
+   with an explicit bound; (e) the engine (Fix/Engine.v, any domain with such an order)
+   and the interval analyzer terminate: enough fuel always exists and more fuel never
+   changes the answer (C05_analysis_terminates).  The representation invariant env_ok (no
+   binding to the empty interval) is needed and kept by every operation
+   (C05_env_widening_needs_invariant shows what happens without it).  Termination of the
+   C++ run itself is observed, not proved. *)
 From Coq Require Import ZArith List Bool Arith.
 From CrabV Require Import Base.ZInf Scalar.Itv Scalar.ItvSound Scalar.ItvWiden Ir.Syntax Dom.ItvEnv
-     Dom.ItvEnvSound Fix.Thresholds Fix.ThresholdsSound.
+     Dom.ItvEnvSound Fix.Thresholds Fix.ThresholdsSound
+     Dom.ItvEnvWiden Fix.Wto Fix.Engine Fix.EngineTerm Ana.FwdItv Ana.FwdItvTerm.
 Import ListNotations.
 
 Theorem C05_widening_upper_bound : forall a b s, genv a s \/ genv b s -> genv (e_widen a b) s.
@@ -56,3 +63,120 @@ Print Assumptions C05_narrowing_keeps_second_argument.
 Print Assumptions C05_interval_narrowing_decreasing_pair.
 Print Assumptions C05_interval_widening_chain_stabilises.
 Print Assumptions C05_interval_widening_step.
+
+(* --- the order that widening descends ------------------------------------------------ *)
+Theorem C05_env_order_well_founded : well_founded e_lt.
+Proof. exact e_lt_wf. Qed.
+Theorem C05_env_widening_progress : forall a b,
+  env_ok a -> env_ok b -> e_leq b a = false -> e_lt (e_widen a b) a.
+Proof. exact e_widen_progress. Qed.
+Theorem C05_env_thresholds_order_well_founded : forall t, well_founded (e_lt_thr t).
+Proof. exact e_lt_thr_wf. Qed.
+Theorem C05_env_widening_thresholds_progress : forall t, wf_thr t -> forall a b,
+  env_ok a -> env_ok b -> e_leq b a = false ->
+  e_lt_thr t (e_widen_thr (thr_prev t) (thr_next t) a b) a.
+Proof. exact e_widen_thr_progress. Qed.
+
+(* --- chains of environments: x_{i+1} = x_i widen y_i, arbitrary y_i; (j, m) = the first
+       non-bottom iterate; at most 1 + (number of finite bounds of m) steps grow *)
+Theorem C05_env_widening_chain_stabilises : forall x0 ys,
+  env_ok x0 -> (forall i, env_ok (ys i)) ->
+  forall j m, ewchain x0 ys j = EMap m -> (forall i, i < j -> ewchain x0 ys i = EBot) ->
+  forall n, length (filter (ew_nonstationary x0 ys) (seq 0 n)) <= 1 + emeasure m.
+Proof. exact e_widen_chain_stabilises. Qed.
+Theorem C05_env_widening_chain_refusals : forall x0 ys,
+  env_ok x0 -> (forall i, env_ok (ys i)) ->
+  forall j m, ewchain x0 ys j = EMap m -> (forall i, i < j -> ewchain x0 ys i = EBot) ->
+  forall n, length (filter (ew_refused x0 ys) (seq 0 n)) <= 1 + emeasure m.
+Proof. exact e_widen_chain_refusals. Qed.
+Theorem C05_env_widening_thresholds_chain_stabilises : forall t, wf_thr t -> forall x0 ys,
+  env_ok x0 -> (forall i, env_ok (ys i)) ->
+  forall j m, echain (iwiden_thr (thr_prev t) (thr_next t)) x0 ys j = EMap m ->
+  (forall i, i < j -> echain (iwiden_thr (thr_prev t) (thr_next t)) x0 ys i = EBot) ->
+  forall n, length (filter (enonstationary (iwiden_thr (thr_prev t) (thr_next t)) x0 ys) (seq 0 n))
+            <= 1 + emeasure_thr t m.
+Proof. exact e_widen_thr_chain_stabilises. Qed.
+Example C05_env_widening_needs_invariant :
+  let a := EMap [(0%N, ibot); (1%N, mkI (Fin 0) (Fin 0))] in
+  let b := EMap [(0%N, ibot); (1%N, mkI (Fin 0) (Fin 1))] in
+  e_leq b a = false /\ e_widen a b = EBot /\ e_leq b (e_widen a b) = false /\ e_widen (e_widen a b) b = b.
+Proof. exact e_widen_needs_invariant. Qed.
+
+(* --- the engine, generic in the abstract domain -------------------------------------- *)
+Theorem C05_engine_fuel_monotone : forall (A : Type) (OP : aops A) (analyze : nat -> A -> A)
+  (preds nest : nat -> list nat) (entry delay descending : nat) (use_asm : bool)
+  (asm : nat -> option A) (init : A) (w : list comp) (f f' : nat) (r : est A),
+  run A OP analyze preds nest entry delay descending use_asm asm init f w = Some r -> f <= f' ->
+  run A OP analyze preds nest entry delay descending use_asm asm init f' w = Some r.
+Proof. exact run_mono. Qed.
+Theorem C05_engine_terminates : forall (A : Type) (OP : aops A) (analyze : nat -> A -> A)
+  (preds nest : nat -> list nat) (entry delay descending : nat) (use_asm : bool)
+  (asm : nat -> option A) (init : A) (Inv : A -> Prop),
+  Inv (o_bot A OP) ->
+  (forall a b, Inv a -> Inv b -> Inv (o_join A OP a b)) ->
+  (forall a b, Inv a -> Inv b -> Inv (o_meet A OP a b)) ->
+  (forall n a b, Inv a -> Inv b -> Inv (o_widen A OP n a b)) ->
+  (forall a b, Inv a -> Inv b -> Inv (o_narrow A OP a b)) ->
+  (forall n a, Inv a -> Inv (analyze n a)) ->
+  (forall n a, use_asm = true -> asm n = Some a -> Inv a) ->
+  Inv init ->
+  forall R : nat -> A -> A -> Prop,
+  (forall n, well_founded (R n)) ->
+  (forall n a b, Inv a -> Inv b -> o_leq A OP b a = false -> R n (o_widen A OP n a b) a) ->
+  forall (w : list comp),
+  exists f r, run A OP analyze preds nest entry delay descending use_asm asm init f w = Some r.
+Proof. exact run_total. Qed.
+
+(* --- the interval analyzer ------------------------------------------------------------ *)
+Theorem C05_analysis_terminates : forall p w entry delay desc use_asm asm init,
+  env_ok init -> (forall n a, use_asm = true -> asm n = Some a -> env_ok a) ->
+  exists fuel e, fwd_run p w entry delay desc use_asm asm fuel init = Some e.
+Proof. exact fwd_run_terminates. Qed.
+Theorem C05_analysis_fuel_monotone : forall p w entry delay desc use_asm asm init fuel fuel' e,
+  fwd_run p w entry delay desc use_asm asm fuel init = Some e -> fuel <= fuel' ->
+  fwd_run p w entry delay desc use_asm asm fuel' init = Some e.
+Proof. exact fwd_run_fuel_mono. Qed.
+Theorem C05_analysis_answer_independent_of_fuel : forall p w entry delay desc use_asm asm init f1 f2 e1 e2,
+  fwd_run p w entry delay desc use_asm asm f1 init = Some e1 ->
+  fwd_run p w entry delay desc use_asm asm f2 init = Some e2 -> e1 = e2.
+Proof. exact fwd_run_deterministic. Qed.
+Theorem C05_analysis_thresholds_terminates : forall t p w entry delay desc use_asm asm init,
+  (forall h, wf_thr (t h)) ->
+  env_ok init -> (forall n a, use_asm = true -> asm n = Some a -> env_ok a) ->
+  exists fuel e, fwd_run_thr t p w entry delay desc use_asm asm fuel init = Some e.
+Proof. exact fwd_run_thr_terminates. Qed.
+Theorem C05_invariant_initial : env_ok e_top /\ env_ok EBot.
+Proof. exact (conj env_ok_top env_ok_bot). Qed.
+Theorem C05_invariant_kept : forall p w entry delay desc use_asm asm init fuel e,
+  env_ok init -> (forall n a, use_asm = true -> asm n = Some a -> env_ok a) ->
+  fwd_run p w entry delay desc use_asm asm fuel init = Some e ->
+  forall n, env_ok (e_pre env e n) /\ env_ok (e_post env e n).
+Proof. exact fwd_run_ok. Qed.
+
+(* i := 0; while (i <= 9) i := i + 1 : the premises hold for the initial value top, fuel 3
+   is enough (computed), fuel 2 is not *)
+Example C05_analysis_terminates_example :
+  env_ok e_top /\
+  (exists e, fwd_run ex_prog ex_wto 0 1 2 false (fun _ => None) 3 e_top = Some e /\
+             e_at (e_post env e 3) ex_i = mkI (Fin 10) (Fin 10) /\
+             e_at (e_pre env e 1) ex_i = mkI (Fin 0) (Fin 10)) /\
+  fwd_run ex_prog ex_wto 0 1 2 false (fun _ => None) 2 e_top = None.
+Proof. exact fwd_run_example. Qed.
+
+Print Assumptions C05_env_order_well_founded.
+Print Assumptions C05_env_widening_progress.
+Print Assumptions C05_env_thresholds_order_well_founded.
+Print Assumptions C05_env_widening_thresholds_progress.
+Print Assumptions C05_env_widening_chain_stabilises.
+Print Assumptions C05_env_widening_chain_refusals.
+Print Assumptions C05_env_widening_thresholds_chain_stabilises.
+Print Assumptions C05_env_widening_needs_invariant.
+Print Assumptions C05_engine_fuel_monotone.
+Print Assumptions C05_engine_terminates.
+Print Assumptions C05_analysis_terminates.
+Print Assumptions C05_analysis_fuel_monotone.
+Print Assumptions C05_analysis_answer_independent_of_fuel.
+Print Assumptions C05_analysis_thresholds_terminates.
+Print Assumptions C05_invariant_initial.
+Print Assumptions C05_invariant_kept.
+Print Assumptions C05_analysis_terminates_example.
